@@ -44,6 +44,7 @@ type Exec struct {
 	epochFrames map[int]*epochFrame
 	noFrameHeaps map[string]bool
 	stateSeq   int
+	boxClosures map[string]*Closure
 }
 
 type modLoc struct {
@@ -75,6 +76,14 @@ type frame struct {
 	rangeHdr   map[*ssa.Range]*ssa.BasicBlock
 	rangeMap   map[*ssa.Range]*types.Map
 	cur        *ssa.BasicBlock
+}
+
+func (fr *frame) specCallGhost(callee string) (map[string]Expr, bool) {
+	if fr.spec == nil || fr.spec.CallGhost == nil {
+		return nil, false
+	}
+	m, ok := fr.spec.CallGhost[callee]
+	return m, ok
 }
 
 type retState struct {
